@@ -89,13 +89,16 @@ theorem blind_eq (a : BlindAtoms) : Extracted.blindCore a = blindCore a := by
   rcases a with ⟨x, y⟩; cases x <;> cases y <;> rfl
 
 /-- the variant of `processing.py` the translator recognised (`Extracted.repairs`) is the one the property
-    theorems are named after: /repo 02af7ce (423b86f, 30557a0 and the rework of 608a57d). The flags are not
+    theorems are named after: /repo ad4ec08 (30557a0's deadline arm and 02af7ce's rework of 608a57d, WITHOUT
+    423b86f's blind purge: the operator is blind again to the objects it does not match). The flags are not
     trusted: `blind_purge_eq` / `waiting_eq` / `forget_eq` re-derive them from the translated skeletons. -/
-theorem repairs_known : Extracted.repairs = Repairs.rework := by decide
+theorem repairs_known : Extracted.repairs = Repairs.head := by decide
 
-/-- /repo 423b86f: the blind branch purges the progress records of `get_resource_handlers(resource)`
-    before it drops the changing cause (the model's `purgeIds`) -/
-theorem blind_purge_eq : Extracted.blindPurges = Extracted.repairs.blindPurge ∧ Extracted.blindPurges = true := by
+/-- /repo ad4ec08 (the revert of 423b86f, finding C15-F9): the blind branch does nothing but drop the
+    changing cause -- no purge of progress records "by name" (`Extracted.blindPurges` is `true` exactly for
+    the body `storage = …; owned_handlers = get_resource_handlers(…); state = State.from_storage(…);
+    state.purge(…); changing_cause = None` of 423b86f; any other body is an extraction error) -/
+theorem blind_purge_eq : Extracted.blindPurges = Extracted.repairs.blindPurge ∧ Extracted.blindPurges = false := by
   decide
 
 /-- the early exit returns a delay besides the spawning delays: the translated if-chain is the model's
